@@ -17,7 +17,10 @@ import vlib
 SPEC = "PromText"
 # Single switch between the model of the code as it is (unit suffix after the sample suffix, HELP/TYPE
 # without it: finding CF08) and the model of the repaired code (notes/c08_fix_CF08.diff).
+# (C08_UNIT_FIX=1 in the environment overrides it, to try the repair: `C08_UNIT_FIX=1 bin/mutcheck notes/c08_fix_CF08.diff C08`.)
 UNIT_FIX = False
+if os.environ.get("C08_UNIT_FIX") in ("0", "1"):
+    UNIT_FIX = os.environ["C08_UNIT_FIX"] == "1"
 KNOWN = {"CF08": "CF08"}
 
 ALPHABET = "{97, 110, 48, 95, 58, 34, 92, 10, 32, 233}"        # a n 0 _ : " \ LF space e-acute
@@ -163,8 +166,44 @@ def run(chk):
 
 
 def replay(chk, path):
-    ok, out, wall = vlib.cargo_build("c08")
+    """Re-execute a stored failing case on the current tree: the scenes / strings of the stored run are fed to the
+    harness again and the fresh trace is validated (a TLC counterexample file re-runs the exhaustive stage)."""
     if path.endswith(".txt"):
-        # a TLC counterexample of the exhaustive run: re-run the exhaustive stage
         return run(chk)
-    vlib.validate_concat(chk, SPEC, "TracePromText", trace_cfg(), path, "replay " + path, KNOWN)
+    ok, out, wall = vlib.cargo_build("c08")
+    if not ok:
+        chk.tool_error("harness build failed", out)
+    scenes, strings = [], []
+    with open(path) as f:
+        for line in f:
+            line = line.strip()
+            if not line:
+                continue
+            e = json.loads(line)
+            if e.get("ev") == "scene":
+                scenes.append({"cfg": e["cfg"], "fams": e["fams"]})
+            elif e.get("ev") == "san":
+                if e.get("abs"):
+                    strings.append({"in": e["abs"]})
+                else:
+                    strings += [{"in": c["in"]} for c in e.get("cases", [])]
+            elif e.get("ev") == "vecmismatch":
+                strings.append({"in": e["in"]})
+    env = {"VERIF_SEED": str(chk.seed)}
+    tcfg = trace_cfg()
+    n = 0
+    for mode, items in (("replay", scenes), ("vectors", strings)):
+        if not items:
+            continue
+        src, tr = chk.path("replay_%s_in.ndjson" % mode), chk.path("replay_%s_trace.ndjson" % mode)
+        with open(src, "w") as f:
+            for it in items:
+                f.write(json.dumps(it) + "\n")
+        rc, out, summ = vlib.harness("c08", [mode, "--in", src, "--out", tr], env=env)
+        if rc != 0 or not summ:
+            chk.tool_error("c08 %s failed" % mode, out)
+        n += vlib.validate_concat(chk, SPEC, "TracePromText", tcfg, tr, "re-executed %s of %s" % (mode, os.path.basename(path)), KNOWN)
+    if n == 0:
+        chk.tool_error("nothing to replay in " + path)
+    chk.cov["traces_validated_against_impl"] += n
+    chk.cov["rule"] = "re-execution of the scenes / strings of a stored failing run on the current tree"
